@@ -203,6 +203,16 @@ func variants(r *rand.Rand, op *gen.Op, mono *ast.Schema) []gen.Op {
 			}
 		}
 	}
+	// a named fragment spread with and without @skip / @include (the directive sits on the spread, not in the fragment)
+	if m := regexp.MustCompile(`\.\.\.(F\d+)\b( @(skip|include)\(if: (true|false)\))?`).FindStringSubmatchIndex(q); m != nil {
+		spread := q[m[0]:m[1]]
+		bare := "..." + q[m[2]:m[3]]
+		for _, d := range []string{"", " @skip(if: true)", " @include(if: false)", " @skip(if: false)"} {
+			if bare+d != spread {
+				add(q[:m[0]]+bare+d+q[m[1]:], nil)
+			}
+		}
+	}
 	// explicit ids
 	for _, t := range opTwins(op) {
 		out = append(out, t)
@@ -272,6 +282,39 @@ func (p c14) Gen(c *run.Ctx, idx int) (json.RawMessage, error) {
 		}
 		if len(names) > 0 {
 			cs.Pool = append(cs.Pool, gen.Op{Query: "{ __type(name: \"" + pick(r, names) + "\") " + sel + " }", Tags: []string{"introspection-literal"}})
+		}
+	}
+	if idx%4 == 1 {
+		// one document, the named fragment spread below an abstract field (node) with different @skip / @include
+		var ents []string
+		for _, t := range cu.u.Types {
+			if t.Kind == gen.KEntity && len(t.Fields) > 0 {
+				ents = append(ents, t.Name)
+			}
+		}
+		if len(ents) > 0 {
+			tn := pick(r, ents)
+			var leaves []string
+			for _, f := range cu.u.Type(tn).Fields {
+				req := false
+				for _, a := range f.Args {
+					if strings.HasSuffix(a.Type, "!") && a.Default == "" {
+						req = true
+					}
+				}
+				if tt := cu.u.Type(gen.BaseName(f.Type)); !req && (tt == nil || tt.Kind == gen.KEnum || tt.Kind == gen.KScalar) {
+					leaves = append(leaves, f.Name)
+				}
+			}
+			if len(leaves) > 0 {
+				id := fmt.Sprintf("%s_%d", tn, r.Intn(2))
+				for _, d := range []string{"", " @skip(if: true)", " @include(if: false)", " @skip(if: false)"} {
+					q := fmt.Sprintf("query SD { node(id: %q) { id ...SF%s } }\nfragment SF on %s { %s }", id, d, tn, strings.Join(leaves, " "))
+					if _, err := gqlparser.LoadQuery(cu.mono, q); err == nil {
+						cs.Pool = append(cs.Pool, gen.Op{Query: q, Tags: []string{"spread-directive"}})
+					}
+				}
+			}
 		}
 	}
 	if len(cs.Pool) < 2 {
